@@ -480,3 +480,158 @@ Proof.
       subst i. cbn [translated i_res i_start i_end] in *. split; [exact Hid|].
       apply (div_in_mult _ _ _ _ Hs H1 H2). lia.
 Qed.
+
+(* ------------------------------------------------------------------ C03_find_spec *)
+
+Definition finds_at (m : mmap) : Prop :=
+  forall l, all_resources m = Ok l -> forall id,
+    (forall i, find_resource m id = Ok i -> In i l /\ i_res i = id) /\
+    (find_resource m id = Err KeyError <-> forall i, In i l -> i_res i <> id) /\
+    ((exists i, find_resource m id = Ok i) \/ find_resource m id = Err KeyError).
+
+(* the loop over windows: first hit in insertion order, KeyError when no window holds the object *)
+Lemma find_in_wins_spec m l id : wf_node m -> all_resources m = Ok l ->
+  (forall wn c, In (wn, c) (m_wins m) -> finds_at c) ->
+  forall ws, incl ws (m_wins m) ->
+    (forall i, find_in_wins id ws = Ok i -> In i l /\ i_res i = id) /\
+    (find_in_wins id ws = Err KeyError <->
+       forall wn c lc i', In (wn, c) ws -> all_resources c = Ok lc -> In i' lc -> i_res i' <> id) /\
+    ((exists i, find_in_wins id ws = Ok i) \/ find_in_wins id ws = Err KeyError).
+Proof.
+  intros Hwf Hl Hkids. induction ws as [|[wn c] ws IHws]; intros Hincl.
+  - cbn [find_in_wins]. split; [discriminate|]. split; [|auto]. split; [|auto]. intros _ wn c lc i' [].
+  - assert (Hw : In (wn, c) (m_wins m)) by (apply Hincl; simpl; auto).
+    assert (Hincl' : incl ws (m_wins m)) by (intros y Hy; apply Hincl; simpl; auto).
+    destruct (IHws Hincl') as (IH1 & IH2 & IH3).
+    destruct (win_contrib _ _ _ _ Hwf Hl Hw) as (lc & lx & Hc & HF & _ & Hlx).
+    destruct (Hkids _ _ Hw _ Hc id) as (K1 & K2 & K3).
+    destruct (win_step_ok _ _ _ Hwf Hw) as [Hs _].
+    cbn [find_in_wins]. destruct (find_resource c id) as [i'|e] eqn:Ef.
+    + destruct (K1 _ eq_refl) as [Hi' Hid].
+      destruct (Forall2_in_l _ _ _ _ HF Hi') as (i & Hi & Ht). unfold tr_win in Ht. rewrite Ht.
+      destruct (translate_ok _ _ _ _ _ _ Hs Ht) as (_ & _ & Heq).
+      split; [|split].
+      * intros i0 [= <-]. split; [auto|]. rewrite Heq. exact Hid.
+      * split; [discriminate|]. intros Hall. exfalso.
+        exact (Hall wn c lc i' (or_introl eq_refl) Hc Hi' Hid).
+      * left; eauto.
+    + assert (He : e = KeyError).
+      { destruct K3 as [[i Hi]|Hk]; [discriminate|]. injection Hk as ->. reflexivity. }
+      subst e. split; [exact IH1|]. split; [|exact IH3].
+      rewrite IH2. split.
+      * intros Hall wn0 c0 lc0 i0 [Heq|Hin] Hc0 Hi0.
+        -- injection Heq as <- <-. rewrite Hc in Hc0. injection Hc0 as <-.
+           exact (proj1 K2 eq_refl _ Hi0).
+        -- exact (Hall wn0 c0 lc0 i0 Hin Hc0 Hi0).
+      * intros Hall wn0 c0 lc0 i0 Hin. apply (Hall wn0 c0 lc0 i0). simpl; auto.
+Qed.
+
+Theorem find_wf m : wf_tree m -> finds_at m.
+Proof.
+  induction m as [aw dw al ranges ress wins names next frozen IH] using mmap_ind'.
+  intros Hwt l Hl id. set (m := MM aw dw al ranges ress wins names next frozen) in *.
+  pose proof (wf_tree_node _ Hwt) as Hwf.
+  assert (Hkids : forall wn c, In (wn, c) (m_wins m) -> finds_at c).
+  { intros wn c Hw. rewrite Forall_forall in IH. apply (IH (wn, c) Hw).
+    eapply wf_tree_child; eauto. }
+  rewrite find_resource_eq. destruct (find_res id (m_ress m)) as [r|] eqn:Ef.
+  - apply find_res_some in Ef as [Hr Hid]. subst id.
+    destruct (res_contrib _ _ _ Hwf Hl Hr) as (i0 & Hm & Hi0 & _). rewrite Hm.
+    assert (Hres : i_res i0 = r_id r) by (apply mk_info_ok in Hm as (-> & _); reflexivity).
+    split; [|split].
+    + intros i [= <-]. auto.
+    + split; [discriminate|]. intros Hall. exfalso. exact (Hall _ Hi0 Hres).
+    + left; eauto.
+  - destruct (find_in_wins_spec m l id Hwf Hl Hkids (m_wins m) (incl_refl _)) as (F1 & F2 & F3).
+    split; [exact F1|]. split; [|exact F3]. rewrite F2. split.
+    + intros Hall i Hi.
+      destruct (in_inv _ _ _ Hwf Hl Hi) as [(r & Hr & Hm)|(wn & c & lc & i' & Hw & Hc & Hi' & Ht)].
+      * apply mk_info_ok in Hm as (-> & _). cbn [i_res]. exact (find_res_none _ _ Ef _ Hr).
+      * destruct (win_step_ok _ _ _ Hwf Hw) as [Hs _].
+        destruct (translate_ok _ _ _ _ _ _ Hs Ht) as (_ & _ & ->). cbn [translated i_res]. eauto.
+    + intros Hall wn c lc i' Hw Hc Hi'.
+      destruct (win_contrib _ _ _ _ Hwf Hl Hw) as (lc' & lx & Hc' & HF & _ & Hlx).
+      rewrite Hc in Hc'. injection Hc' as <-.
+      destruct (Forall2_in_l _ _ _ _ HF Hi') as (i & Hi & Ht).
+      destruct (win_step_ok _ _ _ Hwf Hw) as [Hs _].
+      destruct (translate_ok _ _ _ _ _ _ Hs Ht) as (_ & _ & Heq).
+      pose proof (Hall _ (Hlx _ Hi)) as Hne. rewrite Heq in Hne. exact Hne.
+Qed.
+
+(* ------------------------------------------------------------------ C03_each_addition_once *)
+
+Definition cnt (m : mmap) (x : entry) : nat :=
+  match e_asg x with
+  | AR _ => 1%nat
+  | AW id => match find_win id (m_wins m) with Some (_, c) => tree_count c | None => 0%nat end
+  end.
+
+Lemma list_sum_perm l l' : Permutation l l' -> list_sum l = list_sum l'.
+Proof. induction 1; simpl; lia. Qed.
+
+Lemma length_concat {X} (ls : list (list X)) : length (concat ls) = list_sum (map (@length X) ls).
+Proof. induction ls as [|a ls IH]; simpl; [reflexivity|]. rewrite app_length, IH. reflexivity. Qed.
+
+Lemma Forall2_length_eq {X Y} (R : X -> Y -> Prop) l l' : Forall2 R l l' -> length l = length l'.
+Proof. induction 1; simpl; auto. Qed.
+
+Lemma sum_Forall2 {X Y} (f : X -> nat) (g : Y -> nat) xs ys :
+  Forall2 (fun x y => g y = f x) xs ys -> list_sum (map g ys) = list_sum (map f xs).
+Proof. induction 1 as [|x y xs ys Hxy HF IH]; simpl; [reflexivity|]. rewrite Hxy, IH. reflexivity. Qed.
+
+Definition counts_at (m : mmap) : Prop :=
+  forall l, all_resources m = Ok l -> length l = tree_count m.
+
+Lemma tree_count_eq m :
+  tree_count m = (length (m_ress m) +
+                  fold_right (fun (wc : winent * mmap) acc => tree_count (snd wc) + acc) 0 (m_wins m))%nat.
+Proof. destruct m; reflexivity. Qed.
+
+Theorem count_wf m : wf_tree m -> counts_at m.
+Proof.
+  induction m as [aw dw al ranges ress wins names next frozen IH] using mmap_ind'.
+  intros Hwt l Hl. set (m := MM aw dw al ranges ress wins names next frozen) in *.
+  pose proof (wf_tree_node _ Hwt) as Hwf.
+  assert (Hkids : forall wn c, In (wn, c) (m_wins m) -> counts_at c).
+  { intros wn c Hw. rewrite Forall_forall in IH. apply (IH (wn, c) Hw).
+    eapply wf_tree_child; eauto. }
+  pose proof Hwf as (_ & _ & _ & _ & _ & _ & Hperm & _ & Hndw & _).
+  assert (Hcw : forall wn c, In (wn, c) (m_wins m) -> cnt m (ent_of_win (wn, c)) = tree_count c).
+  { intros wn c Hw. unfold cnt. cbn [ent_of_win e_asg fst].
+    pose proof (find_win_nodup _ _ Hndw Hw) as Hf. unfold wid_of in Hf. cbn [fst] in Hf. rewrite Hf.
+    reflexivity. }
+  destruct (entries_of _ _ Hl) as (ls & HF & ->).
+  rewrite length_concat.
+  assert (Hsum : list_sum (map (@length info) ls) = list_sum (map (cnt m) (m_ranges m))).
+  { assert (HF' : Forall2 (fun x lx => length lx = cnt m x) (m_ranges m) ls).
+    { eapply Forall2_impl_in; [exact HF|]. intros x lx Hx Hp. cbv beta in Hp.
+      destruct (range_entry_cases _ _ Hwf Hx) as [(r & Hr & ->)|([wn c] & Hw & ->)].
+      - rewrite (per_entry_res _ _ Hwf Hr) in Hp. apply bind_ok in Hp as (i & _ & Hp).
+        injection Hp as <-. reflexivity.
+      - rewrite (Hcw _ _ Hw).
+        rewrite (per_entry_win _ _ _ Hwf Hw) in Hp. apply bind_ok in Hp as (lc & Hc & Hp).
+        apply mapR_ok in Hp. rewrite <- (Forall2_length_eq _ _ _ Hp). exact (Hkids _ _ Hw _ Hc). }
+    exact (sum_Forall2 _ _ _ _ HF'). }
+  rewrite Hsum.
+  rewrite (list_sum_perm _ _ (Permutation_map (cnt m) Hperm)).
+  rewrite map_app, list_sum_app, tree_count_eq. f_equal.
+  - clear. induction (m_ress m) as [|r rs IHr]; simpl; [reflexivity|]. rewrite IHr. reflexivity.
+  - assert (Hgen : forall ws, incl ws (m_wins m) ->
+      list_sum (map (cnt m) (map ent_of_win ws)) =
+      fold_right (fun (wc : winent * mmap) acc => (tree_count (snd wc) + acc)%nat) 0%nat ws).
+    { induction ws as [|[wn c] ws IHw]; intros Hincl; [reflexivity|].
+      change (list_sum (map (cnt m) (map ent_of_win ((wn, c) :: ws)))) with
+        (cnt m (ent_of_win (wn, c)) + list_sum (map (cnt m) (map ent_of_win ws)))%nat.
+      cbn [fold_right snd]. rewrite (Hcw wn c) by (apply Hincl; simpl; auto).
+      rewrite IHw; [reflexivity|]. intros y Hy; apply Hincl; simpl; auto. }
+    apply Hgen. apply incl_refl.
+Qed.
+
+(* ------------------------------------------------------------------ on every reachable world *)
+
+Lemma find_never_asserts m l id : wf_tree m -> all_resources m = Ok l ->
+  find_resource m id <> Err AssertionError /\ find_resource m id <> Err TypeError.
+Proof.
+  intros Hwt Hl. destruct (find_wf m Hwt l Hl id) as (_ & _ & [[i Hi]|Hk]); rewrite ?Hi, ?Hk;
+    split; discriminate.
+Qed.
